@@ -140,6 +140,11 @@ pub struct Ctx {
     pub samples: Vec<Value>,
     pub known_hits: BTreeMap<String, (u64, String, Value)>,
     pub enumerated: u64,
+    /// random cases whose decoder asked for more words than the tape had (the rest of the case was
+    /// decoded from zeros = simplest alternatives); a high share means `tape_len` starves the generator
+    pub starved: u64,
+    pub random_cases: u64,
+    pub max_words_used: usize,
     nontrivial_flag: bool,
     frozen: bool,
     known: Known,
@@ -162,6 +167,9 @@ impl Ctx {
             samples: Vec::new(),
             known_hits: BTreeMap::new(),
             enumerated: 0,
+            starved: 0,
+            random_cases: 0,
+            max_words_used: 0,
             nontrivial_flag: false,
             frozen: false,
             known,
@@ -263,6 +271,9 @@ impl Ctx {
         self.evaluations += o.evaluations;
         self.nontrivial += o.nontrivial;
         self.enumerated += o.enumerated;
+        self.starved += o.starved;
+        self.random_cases += o.random_cases;
+        self.max_words_used = self.max_words_used.max(o.max_words_used);
         for (k, v) in o.discards {
             *self.discards.entry(k).or_insert(0) += v;
         }
@@ -369,8 +380,21 @@ impl<P: Property> Part for Gen<P> {
         self.0.budget(tier)
     }
     fn run_tape(&self, tape: &[u32], ctx: &mut Ctx) -> Verdict {
-        let case = match catch(|| self.0.decode(&mut Tape::new(tape))) {
-            Ok(c) => c,
+        let case = match catch(|| {
+            let mut t = Tape::new(tape);
+            let c = self.0.decode(&mut t);
+            (c, t.used())
+        }) {
+            Ok((c, used)) => {
+                if !ctx.is_frozen() {
+                    ctx.random_cases += 1;
+                    if used > tape.len() {
+                        ctx.starved += 1;
+                    }
+                    ctx.max_words_used = ctx.max_words_used.max(used);
+                }
+                c
+            }
             Err(p) => {
                 return Verdict::Fail(Failure::new(
                     format!("harness-decoder-{}", p.signature()),
@@ -699,6 +723,9 @@ fn part_evidence(part: &dyn Part, c: &Ctx, exhaustive_part: bool, budget: Budget
         "has_exhaustive_portion": exhaustive_part,
         "random_cases_budget": budget.cases,
         "max_tape_words": budget.tape_len,
+        "max_words_used_by_decoder": c.max_words_used,
+        "cases_decoded_past_the_tape_end": c.starved,
+        "share_decoded_past_the_tape_end": if c.random_cases > 0 { (c.starved as f64 / c.random_cases as f64 * 1000.0).round() / 1000.0 } else { 0.0 },
         "nontrivial": c.nontrivial,
         "distinct_nontrivial": c.distinct.len(),
         "distinct_is_lower_bound": c.distinct_capped,
@@ -838,7 +865,7 @@ pub fn main_for(lookup: impl Fn(&str) -> Option<Check>) -> ! {
             all_exhaustive = false;
         }
         println!(
-            "[{}:{}] evaluations={} (enumerated {}) nontrivial={} distinct_nontrivial={} discards={:?} known_hits={}",
+            "[{}:{}] evaluations={} (enumerated {}) nontrivial={} distinct_nontrivial={} discards={:?} known_hits={} starved={:.0}% max_words={}",
             check.id,
             part.name(),
             c.evaluations,
@@ -846,7 +873,9 @@ pub fn main_for(lookup: impl Fn(&str) -> Option<Check>) -> ! {
             c.nontrivial,
             c.distinct.len(),
             c.discards,
-            c.known_hits.values().map(|x| x.0).sum::<u64>()
+            c.known_hits.values().map(|x| x.0).sum::<u64>(),
+            if c.random_cases > 0 { c.starved as f64 * 100.0 / c.random_cases as f64 } else { 0.0 },
+            c.max_words_used
         );
         parts_ev.push(part_evidence(part.as_ref(), &c, had_enum, budget));
         total.merge(c);
